@@ -663,3 +663,35 @@ fire("c18-emit-skips-small", "C18", ["C18.emitall"],
      (ABCI_D, "		for _, distribution := range distributions {\n", "		for _, distribution := range distributions {\n			if len(distribution.Amount) == 0 {\n				continue\n			}\n"))
 fire("c20-query-req-unchecked", "C20", ["C20.nilreq"],
      (QPOOLS, "	if req == nil {\n		return nil, status.Error(codes.InvalidArgument, \"invalid request\")\n	}\n", ""))
+
+# ---------------- loop early exits / wrappers / seeded-derived (batch 4) ----------------
+KEEP_D = "x/cfedistributor/keeper/keeper.go"
+fire("c06-break-at-first-locked-pool", "C06", ["C06.everypool"],
+     (VEST, "	for _, vestingPool := range accVestingPools.VestingPools {\n		withdrawable := CalculateWithdrawable(current, *vestingPool)", "	for _, vestingPool := range accVestingPools.VestingPools {\n		if current.Before(vestingPool.LockEnd) {\n			break\n		}\n		withdrawable := CalculateWithdrawable(current, *vestingPool)"))
+fire("c06-skip-pool-without-oracle", "C06", ["C06.everypool"],
+     (VEST, "	for _, vestingPool := range accVestingPools.VestingPools {\n		withdrawable := CalculateWithdrawable(current, *vestingPool)", "	for _, vestingPool := range accVestingPools.VestingPools {\n		if vestingPool.GenesisPool {\n			continue\n		}\n		withdrawable := CalculateWithdrawable(current, *vestingPool)"))
+silent("c06-continue-after-oracle-zero", "C06",
+     (VEST, "		withdrawable := CalculateWithdrawable(current, *vestingPool)\n		vestingPool.Withdrawn = vestingPool.Withdrawn.Add(withdrawable)", "		withdrawable := CalculateWithdrawable(current, *vestingPool)\n		if withdrawable.IsZero() {\n			continue\n		}\n		vestingPool.Withdrawn = vestingPool.Withdrawn.Add(withdrawable)"))
+fire("c03-persist-loop-break", "C03", ["C03.persist"],
+     (DISTR, "		k.SetState(ctx, state)\n	}\n}", "		k.SetState(ctx, state)\n		if state.Burn {\n			break\n		}\n	}\n}"))
+fire("c04-share-loop-break-on-main", "C04", ["C04.everyshare"],
+     (DISTR, "		if share.Destination.Type == types.Main {\n			continue\n		}", "		if share.Destination.Type == types.Main {\n			break\n		}"))
+fire("c14-wrapper-clamps-to-spendable", ["C14", "C01", "C03"], ["C14.wrapper", "C01.wrapper", "C03.wrapper"],
+     (KEEP_D, "	return k.bankKeeper.SendCoinsFromAccountToModule(ctx, account, moduleTo, coins)", "	coins = coins.Min(k.bankKeeper.SpendableCoins(ctx, account))\n	return k.bankKeeper.SendCoinsFromAccountToModule(ctx, account, moduleTo, coins)"))
+fire("c14-wrapper-hides-error", "C14", ["C14.wrapper"],
+     (KEEP_D, "	return k.bankKeeper.BurnCoins(ctx, moduleAccountName, coins)\n", "	if err := k.bankKeeper.BurnCoins(ctx, moduleAccountName, coins); err != nil {\n		k.Logger(ctx).Error(\"burn\", \"error\", err.Error())\n	}\n	return nil\n"))
+silent("c14-wrapper-named-result", "C14",
+     (KEEP_D, "	return k.bankKeeper.BurnCoins(ctx, moduleAccountName, coins)\n", "	err := k.bankKeeper.BurnCoins(ctx, moduleAccountName, coins)\n	return err\n"))
+fire("c07-whole-locked-fast-path", "C07", ["C07.reduction"],
+     (UNLOCK, "			vestingCoin := vestingCoins.AmountOf(coin.Denom)\n", "			vestingCoin := vestingCoins.AmountOf(coin.Denom)\n			if coin.Amount.Equal(lockedCoins.AmountOf(coin.Denom)) {\n				vestingAcc.OriginalVesting = vestingAcc.OriginalVesting.Sub(sdk.NewCoin(coin.Denom, orignalVesting))\n				continue\n			}\n"))
+fire("c07-reduce-by-requested-amount", "C07", ["C07.reduction"],
+     (UNLOCK, "vestingAcc.OriginalVesting = vestingAcc.OriginalVesting.Sub(sdk.NewCoin(coin.Denom, originalVestingDiff))", "_ = originalVestingDiff\n			vestingAcc.OriginalVesting = vestingAcc.OriginalVesting.Sub(sdk.NewCoin(coin.Denom, coin.Amount))"))
+silent("c07-diff-named-coin", "C07",
+     (UNLOCK, "vestingAcc.OriginalVesting = vestingAcc.OriginalVesting.Sub(sdk.NewCoin(coin.Denom, originalVestingDiff))", "diffCoin := sdk.NewCoin(coin.Denom, originalVestingDiff)\n			vestingAcc.OriginalVesting = vestingAcc.OriginalVesting.Sub(diffCoin)"))
+C08_OLD = "	if restartVesting {\n		err = k.newVestingAccount(ctx, toAccAddress, amount, vt.Free,\n			ctx.BlockTime().Add(vt.LockupPeriod), ctx.BlockTime().Add(vt.LockupPeriod).Add(vt.VestingPeriod))\n	} else {\n		err = k.newVestingAccount(ctx, toAccAddress, amount, vt.Free,\n			vestingPool.LockEnd, vestingPool.LockEnd)\n	}\n"
+fire("c08-duration-sum-wraps", "C08", ["C08.schedule"],
+     (VEST, C08_OLD, "	lockEnd, vestingEnd := vestingPool.LockEnd, vestingPool.LockEnd\n	if restartVesting {\n		lockEnd = ctx.BlockTime().Add(vt.LockupPeriod)\n		vestingEnd = ctx.BlockTime().Add(vt.LockupPeriod + vt.VestingPeriod)\n	}\n	err = k.newVestingAccount(ctx, toAccAddress, amount, vt.Free, lockEnd, vestingEnd)\n"))
+silent("c08-single-call-phi-args", "C08",
+     (VEST, C08_OLD, "	lockEnd, vestingEnd := vestingPool.LockEnd, vestingPool.LockEnd\n	if restartVesting {\n		lockEnd = ctx.BlockTime().Add(vt.LockupPeriod)\n		vestingEnd = lockEnd.Add(vt.VestingPeriod)\n	}\n	err = k.newVestingAccount(ctx, toAccAddress, amount, vt.Free, lockEnd, vestingEnd)\n"))
+fire("c08-single-call-swapped-flag", "C08", ["C08.schedule"],
+     (VEST, C08_OLD, "	lockEnd, vestingEnd := vestingPool.LockEnd, vestingPool.LockEnd\n	if !restartVesting {\n		lockEnd = ctx.BlockTime().Add(vt.LockupPeriod)\n		vestingEnd = lockEnd.Add(vt.VestingPeriod)\n	}\n	err = k.newVestingAccount(ctx, toAccAddress, amount, vt.Free, lockEnd, vestingEnd)\n"))
